@@ -23,7 +23,8 @@ import (
 
 type kvEntry struct {
 	key []value
-	val value // []value or *blob
+	val value  // []value or *blob
+	ver uint64 // commit version that wrote the entry (Badger's item version)
 }
 
 type kvWrite struct {
@@ -33,9 +34,10 @@ type kvWrite struct {
 }
 
 type kvDisk struct {
-	dir  string
-	ents []kvEntry // sorted by key, immutable slices (copy on commit)
-	open bool
+	dir     string
+	ents    []kvEntry // sorted by key, immutable slices (copy on commit)
+	open    bool
+	version uint64 // last commit version
 }
 
 type kvDB struct {
@@ -105,6 +107,8 @@ func unbox(v value, what string) interface{} {
 
 func cloneBytes(v value) value {
 	switch x := v.(type) {
+	case *payloadFile:
+		return x
 	case []value:
 		return append([]value{}, x...)
 	case *blob:
@@ -148,6 +152,10 @@ func (p *pathState) hasPrefix(k, prefix []value) bool {
 
 // applyWrites returns ents with ws applied (new slice).
 func (p *pathState) applyWrites(ents []kvEntry, ws []kvWrite) []kvEntry {
+	return p.applyWritesV(ents, ws, 0)
+}
+
+func (p *pathState) applyWritesV(ents []kvEntry, ws []kvWrite, ver uint64) []kvEntry {
 	out := append([]kvEntry(nil), ents...)
 	for _, w := range ws {
 		// find first index with key >= w.key
@@ -159,7 +167,7 @@ func (p *pathState) applyWrites(ents []kvEntry, ws []kvWrite) []kvEntry {
 			if w.del {
 				out = append(out[:i:i], out[i+1:]...)
 			} else {
-				out[i] = kvEntry{w.key, w.val}
+				out[i] = kvEntry{w.key, w.val, ver}
 			}
 			continue
 		}
@@ -168,7 +176,7 @@ func (p *pathState) applyWrites(ents []kvEntry, ws []kvWrite) []kvEntry {
 		}
 		n := make([]kvEntry, 0, len(out)+1)
 		n = append(n, out[:i]...)
-		n = append(n, kvEntry{w.key, w.val})
+		n = append(n, kvEntry{w.key, w.val, ver})
 		n = append(n, out[i:]...)
 		out = n
 	}
@@ -181,7 +189,7 @@ func (t *kvTxn) get(p *pathState, key []value) (kvEntry, bool) {
 			if t.writes[i].del {
 				return kvEntry{}, false
 			}
-			return kvEntry{t.writes[i].key, t.writes[i].val}, true
+			return kvEntry{t.writes[i].key, t.writes[i].val, 0}, true
 		}
 	}
 	for _, e := range t.snap {
@@ -201,7 +209,8 @@ func (t *kvTxn) commit(p *pathState) {
 	}
 	d := t.db.disk
 	p.sched.yield("kv.commit")
-	d.ents = p.applyWrites(d.ents, t.writes)
+	d.version++
+	d.ents = p.applyWritesV(d.ents, t.writes, d.version)
 	p.env.effects = append(p.env.effects, effect{kind: "kv", disk: d, writes: t.writes})
 }
 
@@ -622,17 +631,27 @@ func u64Bytes(n uint64) []value {
 func kvBackup(fr *frame, d *kvDB, w value, since value) value {
 	p := fr.i.path
 	sinceV := uint64(p.concInt(since, "backup since"))
-	ver := uint64(0)
-	for _, e := range p.env.effects {
-		if e.kind == "kv" && e.disk == d.disk {
-			ver++
+	var ents []kvEntry
+	maxVer := uint64(0)
+	for _, e := range d.disk.ents {
+		if e.ver > sinceV {
+			ents = append(ents, e)
+			if e.ver > maxVer {
+				maxVer = e.ver
+			}
 		}
 	}
-	_ = sinceV
-	payload := &backupPayload{disk: d.disk, ents: d.disk.ents, since: sinceV, upto: ver}
+	payload := &backupPayload{disk: d.disk, ents: ents, since: sinceV, upto: maxVer}
 	wi := w.(iface)
 	if wi.t == nil {
 		panic("runtime error: invalid memory address or nil pointer dereference (nil writer)")
+	}
+	if pv, ok := wi.v.(*value); ok && pv == nil {
+		// (*os.File)(nil).Write returns os.ErrInvalid
+		return tuple{uint64(0), iface{errorType, "invalid argument"}}
+	}
+	if len(ents) == 0 {
+		return tuple{uint64(0), iface{}}
 	}
 	// call w.Write(payload)
 	var wm *types.Func
@@ -650,7 +669,7 @@ func kvBackup(fr *frame, d *kvDB, w value, since value) value {
 	if e, ok := res[1].(iface); ok && e.t != nil {
 		return tuple{uint64(0), res[1]}
 	}
-	return tuple{ver, iface{}}
+	return tuple{maxVer, iface{}}
 }
 
 type backupPayload struct {
